@@ -42,7 +42,9 @@ func newEvalNode(et *ExecutingTask, n *pipeline.EvalNode, d NodeDiagnostic) (*Ev
 		}
 		en.expressions[i] = statefulExpr
 		refVars := ast.FindReferenceVariables(lambda.Expression)
-		en.refVarList[i] = refVars
+		// The result of an earlier expression shadows a field or tag of the same name,
+		// so such a name must not be refilled from the point before this expression.
+		en.refVarList[i] = removeNames(refVars, n.AsList[:i])
 	}
 	// Create a single pool for the combination of all expressions
 	en.scopePool = stateful.NewScopePool(ast.FindReferenceVariables(expressions...))
@@ -57,6 +59,21 @@ func newEvalNode(et *ExecutingTask, n *pipeline.EvalNode, d NodeDiagnostic) (*Ev
 
 	en.node.runF = en.runEval
 	return en, nil
+}
+
+// removeNames returns the names that are not in the exclude list.
+func removeNames(names, exclude []string) []string {
+	kept := make([]string, 0, len(names))
+NAMES:
+	for _, name := range names {
+		for _, x := range exclude {
+			if x == name {
+				continue NAMES
+			}
+		}
+		kept = append(kept, name)
+	}
+	return kept
 }
 
 func (n *EvalNode) runEval(snapshot []byte) error {
